@@ -3,6 +3,7 @@ package main
 import (
 	"database/sql"
 	"fmt"
+	"os"
 	"path/filepath"
 	"strings"
 
@@ -136,6 +137,8 @@ func runC11(r *vf.Run) {
 			}
 			execs := 1 + rng.Intn(6)
 			var prevStr []string
+			var pending []string // second half of a boundary-shift pair, to be used by the next execution
+			pendingStmt := false
 			for x := 0; x < execs; x++ {
 				// argument list for this execution: the original values, or other values of the columns
 				curArgs := append([]any{}, args...)
@@ -162,7 +165,30 @@ func runC11(r *vf.Run) {
 						}
 					}
 				}
-				if x > 0 && len(prevStr) >= 2 && len(prevStr) == len(curStr) && rng.Intn(3) == 0 {
+				forceStmt := false
+				if pending != nil && len(pending) == len(curStr) {
+					// ("p0", "p1"+sep+"p2") right after ("p0"+sep+"p1", "p2") on the same path: any shortcut that identifies an
+					// argument list by its joined bytes confuses the two
+					for k := range curStr {
+						curStr[k], curArgs[k] = pending[k], any(pending[k])
+					}
+					pending, forceStmt = nil, true
+					r.Count("executions_with_shifted_argument_boundary", 1)
+				} else if len(curStr) >= 2 && rng.Intn(4) == 0 && x+1 < execs {
+					sep := []string{"\x00", ",", " ", "|", ";", "\x1f", "\n", "$", "\x00\x00"}[rng.Intn(9)]
+					p := []string{gen.Hostile[rng.Intn(len(gen.Hostile))], fmt.Sprint(rng.Intn(9)), "z"}
+					i := rng.Intn(len(curStr) - 1)
+					// p0 is a value that really occurs in the column of placeholder i+1: the second execution of the pair
+					// (p0, p1+sep+p2) then matches rows while the first (p0+sep+p1, p2) does not, so confusing them shows
+					if col := columnOfPlaceholder(tmpl, int32(i+1)); col != "" && len(ds.Vals[col]) > 0 {
+						p[0] = ds.Vals[col][rng.Intn(len(ds.Vals[col]))]
+					}
+					curStr[i], curStr[i+1] = p[0]+sep+p[1], p[2]
+					curArgs[i], curArgs[i+1] = curStr[i], curStr[i+1]
+					pending = append([]string{}, curStr...)
+					pending[i], pending[i+1] = p[0], p[1]+sep+p[2]
+					forceStmt, pendingStmt = true, true
+				} else if x > 0 && len(prevStr) >= 2 && len(prevStr) == len(curStr) && rng.Intn(3) == 0 {
 					// the same bytes as the previous execution, split differently between two neighbouring arguments:
 					// ("x"+sep+"y", "z") then ("x", "y"+sep+"z")
 					sep := []string{"\x00", ",", " ", "|", ";", "\x1f", "", "\n", "$"}[rng.Intn(9)]
@@ -199,6 +225,12 @@ func runC11(r *vf.Run) {
 					kind = "too-many" // a trailing argument that no placeholder refers to
 				}
 				viaStmt := rng.Intn(2) == 0
+				if forceStmt {
+					viaStmt, kind = pendingStmt, "exact"
+					if len(curArgs) > need {
+						curArgs, curStr = curArgs[:need], curStr[:need]
+					}
+				}
 				if id == "regress-too-few" && qi == 0 {
 					viaStmt = x%2 == 1
 				}
@@ -237,6 +269,9 @@ func runC11(r *vf.Run) {
 					continue
 				}
 				want := oracle.Eval(ds.Rows, ds.Cols, sub, gb)
+				if os.Getenv("VERIF_DEBUG_C11") != "" && forceStmt {
+					fmt.Fprintf(os.Stderr, "PAIR %s x=%d viaStmt=%v kind=%s args=%q wantCount=%d err=%v\n", qid, x, viaStmt, kind, curStr, want.Count, qerr)
+				}
 				if kind == "too-many" && qerr != nil {
 					continue // an error is acceptable for surplus arguments
 				}
@@ -275,4 +310,19 @@ func runC11(r *vf.Run) {
 	racePass(r)
 	r.Floor("Prepare and direct path both used", r.Covered("paths") == 2)
 	r.Floor("too-few, exact and too-many argument lists all seen", r.Covered("argument_counts") == 3)
+}
+
+func columnOfPlaceholder(e *oracle.Expr, n int32) string {
+	if e.Op == '=' {
+		if e.Ph == n {
+			return e.Col
+		}
+		return ""
+	}
+	for _, k := range e.Kids {
+		if c := columnOfPlaceholder(k, n); c != "" {
+			return c
+		}
+	}
+	return ""
 }
